@@ -1,7 +1,17 @@
 #!/bin/bash
-# Offline set-up: build the Lean library (model, theorems, audits) and the model driver.
+# Offline set-up: regenerate the extracted data from /repo, build the Lean library
+# (model, specifications, theorems) and the model driver.
 set -e
 cd "$(dirname "$0")"
-python3 tools/extract.py
+python3 - <<'PY'
+import sys
+sys.path.insert(0, 'tools')
+import vlib
+ok, msg = vlib.extract()
+print(msg)
+from props import c20
+c20.extract_symbols()
+sys.exit(0 if ok else 1)
+PY
 cd lean
 lake build
